@@ -18,6 +18,8 @@ THEOREMS = [
 	'Httoop.Digest.check_rejects_realm',
 	'Httoop.Digest.md5_fixed_len',
 	'Httoop.Digest.parseAtom_formatParam',
+	'Httoop.Digest.params_roundtrip',
+	'Httoop.Digest.c17_params_witness',
 	'Httoop.Digest.c17_rfc2617_example',
 	'Httoop.Digest.c17_comma_witness',
 ]
@@ -405,5 +407,5 @@ def finding_still_fails(k):
 
 LEVEL_TEXT = ('Theorems for EVERY hash function H and every credential tuple: for qop in {absent, auth, auth-int} and algorithm in {absent, MD5, MD5-sess} the response computed by the model of calculate_request_digest equals the RFC 2617/7616 formula '
 	'(also with a precomputed A1 for MD5-sess); check() accepts exactly when the realms agree and the given response is the computed one; if it accepts credentials differing in the password or in any single field entering the digest then H has a collision (reduction; fixed output length proved for the Lean MD5); '
-	'one parameter survives formatparam / the scheme parser when it carries no comma, quote or backslash. Model tied to the code by correspondence on calculate, compose, parse (also garbage) and check, with MD5 computed in Lean.')
-LEVEL_NOTE = 'Trusted: Lean kernel; correspondence harness; Model/Md5.lean (validated against hashlib each run). The whole-field wire round trip (all parameters at once) is decided by the correspondence and the oracle; the theorem covers one parameter (parseAtom_formatParam).'
+	'every list of parameters (any number, in order) survives formatparam, the ", " join and the atoms of the scheme parser when the values carry no comma, quote or backslash (params_roundtrip). Model tied to the code by correspondence on calculate, compose, parse (also garbage) and check, with MD5 computed in Lean.')
+LEVEL_NOTE = 'Trusted: Lean kernel; correspondence harness; Model/Md5.lean (validated against hashlib each run). The theorem params_roundtrip covers the (key, value) list of the field; the dictionary lookups that follow (which keys are required, qop-dependent ones) are compared with the code by the correspondence.'
